@@ -70,7 +70,8 @@ theorem step_cases (cfg : Cfg) (hs : Hashes) (s : St) (op : Op) :
     (∃ frm id rn, op = .claim frm id rn ∧ claim cfg hs s id rn = .ok (step cfg hs s op)) ∨
     (∃ frm id, op = .refund frm id ∧ refund cfg hs s id = .ok (step cfg hs s op)) ∨
     (∃ dh dt, op = .beginBlock dh dt ∧ step cfg hs s op = beginBlock hs s dh dt) ∨
-    (∃ d l tl p tbl act, op = .setLimit d l tl p tbl act ∧ step cfg hs s op = setLimit s d l tl p tbl act) := by
+    (∃ d l tl p tbl act, op = .setLimit d l tl p tbl act ∧ step cfg hs s op = setLimit s d l tl p tbl act) ∨
+    (∃ d dep, op = .setDeputy d dep ∧ step cfg hs s op = setDeputy s d dep) := by
   cases op with
   | create hash ts span sender recipient other coins =>
     cases hc : create cfg hs s hash ts span sender recipient other coins with
@@ -94,7 +95,8 @@ theorem step_cases (cfg : Cfg) (hs : Hashes) (s : St) (op : Op) :
     | err => exact Or.inl (step_of_err (by show refund _ _ _ _ = _; exact hc))
     | panic => exact Or.inl (step_of_panic (by show refund _ _ _ _ = _; exact hc))
   | beginBlock dh dt => exact Or.inr (Or.inr (Or.inr (Or.inr (Or.inl ⟨dh, dt, rfl, rfl⟩))))
-  | setLimit d l tl p tbl act => exact Or.inr (Or.inr (Or.inr (Or.inr (Or.inr ⟨d, l, tl, p, tbl, act, rfl, rfl⟩))))
+  | setLimit d l tl p tbl act => exact Or.inr (Or.inr (Or.inr (Or.inr (Or.inr (Or.inl ⟨d, l, tl, p, tbl, act, rfl, rfl⟩)))))
+  | setDeputy d dep => exact Or.inr (Or.inr (Or.inr (Or.inr (Or.inr (Or.inr ⟨d, dep, rfl, rfl⟩)))))
 
 /-- operations a transaction can carry: the creator of a swap is never the module account -/
 def OpOk (cfg : Cfg) : Op → Prop
@@ -104,13 +106,15 @@ def OpOk (cfg : Cfg) : Op → Prop
 theorem inv_step {cfg : Cfg} {hs : Hashes} {s : St} (hcfg : cfg.macc cfg.module = true) (h : Inv cfg hs s)
     (op : Op) (hop : OpOk cfg op) : Inv cfg hs (step cfg hs s op) := by
   rcases step_cases cfg hs s op with e | ⟨hash, ts, span, sender, rcp, other, coins, rfl, hok⟩ |
-    ⟨frm, id, rn, rfl, hok⟩ | ⟨frm, id, rfl, hok⟩ | ⟨dh, dt, rfl, e⟩ | ⟨d, l, tl, p, tbl, act, rfl, e⟩
+    ⟨frm, id, rn, rfl, hok⟩ | ⟨frm, id, rfl, hok⟩ | ⟨dh, dt, rfl, e⟩ | ⟨d, l, tl, p, tbl, act, rfl, e⟩ |
+    ⟨dq, depq, rfl, e⟩
   · rw [e]; exact h
   · exact create_inv h hop hok
   · exact claim_inv h hcfg hok
   · exact refund_inv h hok
   · rw [e]; exact (beginBlock_spec h dh dt).1
   · rw [e]; exact setLimit_inv h d l tl p tbl act
+  · rw [e]; exact setDeputy_inv h dq depq
 
 theorem inv_run {cfg : Cfg} {hs : Hashes} (hcfg : cfg.macc cfg.module = true) :
     ∀ (ops : List Op) (s : St), Inv cfg hs s → (∀ op ∈ ops, OpOk cfg op) → Inv cfg hs (run cfg hs s ops) := by
@@ -412,11 +416,13 @@ theorem close_kills {cfg : Cfg} {hs : Hashes} {s : St} (h : Inv cfg hs s) {op : 
   | create _ _ _ _ _ _ _ => simp [closesId] at hc
   | beginBlock _ _ => simp [closesId] at hc
   | setLimit _ _ _ _ _ _ => simp [closesId] at hc
+  | setDeputy _ _ => simp [closesId] at hc
 
 theorem live_back {cfg : Cfg} {hs : Hashes} {s : St} (h : Inv cfg hs s) {op : Op} {x : Id}
     (hnc : ¬ createsId hs op x) (hl : liveAt (step cfg hs s op) x) : liveAt s x := by
   rcases step_cases cfg hs s op with e | ⟨hash, ts, span, sender, rcp, other, coins, rfl, hok⟩ |
-    ⟨frm, id, rn, rfl, hok⟩ | ⟨frm, id, rfl, hok⟩ | ⟨dh, dt, rfl, e⟩ | ⟨d, l, tl, p, tbl, act, rfl, e⟩
+    ⟨frm, id, rn, rfl, hok⟩ | ⟨frm, id, rfl, hok⟩ | ⟨dh, dt, rfl, e⟩ | ⟨d, l, tl, p, tbl, act, rfl, e⟩ |
+    ⟨dq, depq, rfl, e⟩
   · rw [e] at hl; exact hl
   · obtain ⟨-, n, -, -, -, -, -, -, -, -, -, -, -, -, hfind⟩ := find_create hok x
     obtain ⟨y, hy, hny⟩ := hl
@@ -451,6 +457,7 @@ theorem live_back {cfg : Cfg} {hs : Hashes} {s : St} (h : Inv cfg hs s) {op : Op
       · split at hy
         · rename_i ho; rw [hc] at ho; cases ho.1
         · cases hy; exact hny hc
+  · rw [e] at hl; exact hl
   · rw [e] at hl; exact hl
 
 theorem closeCount_le {cfg : Cfg} {hs : Hashes} (hcfg : cfg.macc cfg.module = true) (x : Id) :
@@ -502,7 +509,8 @@ theorem current_step {cfg : Cfg} {hs : Hashes} {s : St} (hcfg : cfg.macc cfg.mod
     ((step cfg hs s op).supply d).current = (s.supply d).current + claimDelta cfg hs s op d ∧
     (step cfg hs s op).bankSupply d = s.bankSupply d + claimDelta cfg hs s op d := by
   rcases step_cases cfg hs s op with e | ⟨hash, ts, span, sender, rcp, other, coins, rfl, hok⟩ |
-    ⟨frm, id, rn, rfl, hok⟩ | ⟨frm, id, rfl, hok⟩ | ⟨dh, dt, rfl, e⟩ | ⟨d', l, tl, p, tbl, act, rfl, e⟩
+    ⟨frm, id, rn, rfl, hok⟩ | ⟨frm, id, rfl, hok⟩ | ⟨dh, dt, rfl, e⟩ | ⟨d', l, tl, p, tbl, act, rfl, e⟩ |
+    ⟨dq, depq, rfl, e⟩
   · -- nothing happened: a failed op, or an op that returns the same state
     rw [e]
     have : claimDelta cfg hs s op d = 0 := by
@@ -531,6 +539,7 @@ theorem current_step {cfg : Cfg} {hs : Hashes} {s : St} (hcfg : cfg.macc cfg.mod
       | refund _ _ => rfl
       | beginBlock _ _ => rfl
       | setLimit _ _ _ _ _ _ => rfl
+      | setDeputy _ _ => rfl
     rw [this]; omega
   · obtain ⟨d0, amt, a, sup, -, -, -, -, -, -, e1, -, e3, -, c1, -, -⟩ := create_effect hok
     have : claimDelta cfg hs s (.create hash ts span sender rcp other coins) d = 0 := rfl
@@ -569,6 +578,9 @@ theorem current_step {cfg : Cfg} {hs : Hashes} {s : St} (hcfg : cfg.macc cfg.mod
   · have : claimDelta cfg hs s (.setLimit d' l tl p tbl act) d = 0 := rfl
     rw [this, e]
     exact ⟨by show (s.supply d).current = _; omega, by show s.bankSupply d = _; omega⟩
+  · have : claimDelta cfg hs s (.setDeputy dq depq) d = 0 := rfl
+    rw [this, e]
+    exact ⟨by show (s.supply d).current = _; omega, by show s.bankSupply d = _; omega⟩
 
 theorem current_run {cfg : Cfg} {hs : Hashes} (hcfg : cfg.macc cfg.module = true) (d : Denom) :
     ∀ (ops : List Op) (s : St), Inv cfg hs s → (∀ op ∈ ops, OpOk cfg op) →
@@ -594,7 +606,13 @@ theorem current_run {cfg : Cfg} {hs : Hashes} (hcfg : cfg.macc cfg.module = true
 
 /-! ### direction by deputy, as a state invariant -/
 
-/-- every stored swap is incoming exactly when its sender is the deputy of its asset -/
+/-- the operation is not a deputy rotation -/
+def notSetDeputy : Op → Prop
+  | .setDeputy _ _ => False
+  | _ => True
+
+/-- every stored swap is incoming exactly when its sender is the deputy of its asset (an invariant only while
+    governance leaves the deputies alone: a rotation changes the deputy, never a stored swap) -/
 def DeputyInv (s : St) : Prop :=
   ∀ sw ∈ s.swaps, ∀ a, getAsset s.assets sw.denom = some a → (sw.dir = .incoming ↔ sw.sender = a.deputy)
 
@@ -610,9 +628,10 @@ theorem mem_filterMap_fate {H : Nat} {l : List Swap} {y : Swap} (h : y ∈ l.fil
     · cases hf; exact Or.inl rfl
 
 theorem deputy_step {cfg : Cfg} {hs : Hashes} {s : St} (hcfg : cfg.macc cfg.module = true) (h : Inv cfg hs s)
-    (hd : DeputyInv s) (op : Op) : DeputyInv (step cfg hs s op) := by
+    (hd : DeputyInv s) (op : Op) (hnd : notSetDeputy op) : DeputyInv (step cfg hs s op) := by
   rcases step_cases cfg hs s op with e | ⟨hash, ts, span, sender, rcp, other, coins, rfl, hok⟩ |
-    ⟨frm, id, rn, rfl, hok⟩ | ⟨frm, id, rfl, hok⟩ | ⟨dh, dt, rfl, e⟩ | ⟨d, l, tl, p, tbl, act, rfl, e⟩
+    ⟨frm, id, rn, rfl, hok⟩ | ⟨frm, id, rfl, hok⟩ | ⟨dh, dt, rfl, e⟩ | ⟨d, l, tl, p, tbl, act, rfl, e⟩ |
+    ⟨dq, depq, rfl, e⟩
   · rw [e]; exact hd
   · obtain ⟨-, n, -, -, -, -, hsn, -, -, -, -, -, hdep, hsw, -⟩ := find_create hok 0
     obtain ⟨-, -, -, -, -, -, -, -, -, -, -, eas, -⟩ := create_effect hok
@@ -663,6 +682,7 @@ theorem deputy_step {cfg : Cfg} {hs : Hashes} {s : St} (hcfg : cfg.macc cfg.modu
       split
       · exact this
       · exact this
+  · exact absurd hnd (by simp [notSetDeputy])
 
 /-! ### the supply limits, as a state invariant while governance leaves the limits alone -/
 
@@ -681,7 +701,8 @@ def notSetLimit : Op → Prop
 theorem lim_step {cfg : Cfg} {hs : Hashes} {s : St} (hcfg : cfg.macc cfg.module = true) (h : Inv cfg hs s)
     (hl : LimInv s) (op : Op) (hns : notSetLimit op) : LimInv (step cfg hs s op) := by
   rcases step_cases cfg hs s op with e | ⟨hash, ts, span, sender, rcp, other, coins, rfl, hok⟩ |
-    ⟨frm, id, rn, rfl, hok⟩ | ⟨frm, id, rfl, hok⟩ | ⟨dh, dt, rfl, e⟩ | ⟨d, l, tl, p, tbl, act, rfl, e⟩
+    ⟨frm, id, rn, rfl, hok⟩ | ⟨frm, id, rfl, hok⟩ | ⟨dh, dt, rfl, e⟩ | ⟨d, l, tl, p, tbl, act, rfl, e⟩ |
+    ⟨dq, depq, rfl, e⟩
   · rw [e]; exact hl
   · obtain ⟨d0, amt, a0, sup, -, ha0, -, -, -, -, esup, eas, -, -, c1, c2, hcase⟩ := create_effect hok
     intro d a ha
@@ -746,6 +767,19 @@ theorem lim_step {cfg : Cfg} {hs : Hashes} {s : St} (hcfg : cfg.macc cfg.module 
       rcases i4 with t | t <;> omega
     · rcases i4 with t | t <;> omega
   · exact absurd hns (by simp [notSetLimit])
+  · intro d a ha
+    rw [e] at ha ⊢
+    rw [getAsset_after_setDeputy] at ha
+    cases hg : getAsset s.assets d with
+    | none => rw [hg] at ha; cases ha
+    | some a0 =>
+      rw [hg] at ha
+      simp only [Option.map_some] at ha
+      have := hl d a0 hg
+      cases ha
+      split
+      · exact this
+      · exact this
 
 /-! ### the life cycle of one swap id -/
 
@@ -773,7 +807,8 @@ inductive Trans (hs : Hashes) (s : St) (op : Op) (x : Id) : Option Swap → Opti
 theorem trans_step {cfg : Cfg} {hs : Hashes} {s : St} (h : Inv cfg hs s) (op : Op) (x : Id) :
     Trans hs s op x (findSwap s.swaps x) (findSwap (step cfg hs s op).swaps x) := by
   rcases step_cases cfg hs s op with e | ⟨hash, ts, span, sender, rcp, other, coins, rfl, hok⟩ |
-    ⟨frm, id, rn, rfl, hok⟩ | ⟨frm, id, rfl, hok⟩ | ⟨dh, dt, rfl, e⟩ | ⟨d, l, tl, p, tbl, act, rfl, e⟩
+    ⟨frm, id, rn, rfl, hok⟩ | ⟨frm, id, rfl, hok⟩ | ⟨dh, dt, rfl, e⟩ | ⟨d, l, tl, p, tbl, act, rfl, e⟩ |
+    ⟨dq, depq, rfl, e⟩
   · rw [e]; exact .same _
   · obtain ⟨hnew, n, -, hopen, -, -, -, -, -, hcl, -, -, -, -, hfind⟩ := find_create hok x
     rw [hfind]
@@ -810,6 +845,7 @@ theorem trans_step {cfg : Cfg} {hs : Hashes} {s : St} (h : Inv cfg hs s) (op : O
       · split
         · rename_i ho; exact .expired sw dh dt rfl ho.1 ho.2
         · exact .same _
+  · rw [e]; exact .same _
   · rw [e]; exact .same _
 
 end KV.Bep3
